@@ -91,6 +91,40 @@ func readOps() []readOp {
 			}
 			return fmt.Sprint(len(d.GetFields()))
 		}},
+		readOp{"use as merge source: embedded (root and the sub-config n) in a map, a list and an ordered struct with a dotted sibling", func(c *ucfg.Config, o []ucfg.Option) string {
+			res := ""
+			srcs := []*ucfg.Config{c}
+			if n, err := c.Child("n", -1); err == nil && n != nil {
+				srcs = append(srcs, n)
+			}
+			for _, src := range srcs {
+				for _, pol := range [][]ucfg.Option{nil, {ucfg.AppendValues}} {
+					oo := append([]ucfg.Option{ucfg.PathSep(".")}, pol...)
+					inputs := []interface{}{
+						[]interface{}{src},
+						struct {
+							S *ucfg.Config `config:"s"`
+							Z string       `config:"s.zz"`
+							K string       `config:"s.k"`
+						}{src, "z", "kk"},
+						map[string]interface{}{"s": src, "s.n.zz": "z"},
+					}
+					for _, in := range inputs {
+						d := ucfg.New()
+						if err := d.Merge(in, oo...); err != nil {
+							res += "e"
+						} else {
+							res += "k"
+						}
+						// ... and writing into the destination afterwards must not reach the source either
+						d.SetString("s.k", -1, "w", ucfg.PathSep("."))
+						d.SetString("s.n.k", -1, "w", ucfg.PathSep("."))
+						d.Remove("s.k", -1, ucfg.PathSep("."))
+					}
+				}
+			}
+			return res
+		}},
 		readOp{"Int/Bool/Float getters", func(c *ucfg.Config, o []ucfg.Option) string {
 			_, e1 := c.Int("a", -1, o...)
 			_, e2 := c.Bool("b", -1, o...)
